@@ -46,16 +46,27 @@ func Reconcile(asset string, senders []Sender, receivers []Receiver) ([]Posting,
 			break
 		}
 
-		// Ugly workaround
+		// Kept funds are withheld from the senders next in line
+		// (spanning several of them if needed) and are never posted
 		if receiver.Name == KEPT_ADDR {
-			sender, empty := popStack(&senders)
-			if !empty {
-				var newMon big.Int
-				newMon.Sub(sender.Monetary, receiver.Monetary)
-				senders = append(senders, Sender{
-					Name:     sender.Name,
-					Monetary: &newMon,
-				})
+			keptLeft := new(big.Int).Set(receiver.Monetary)
+			for keptLeft.Cmp(big.NewInt(0)) == 1 {
+				sender, empty := popStack(&senders)
+				if empty {
+					break
+				}
+
+				if sender.Monetary.Cmp(keptLeft) == 1 {
+					// the sender has more than what is kept: the rest stays available
+					var newMon big.Int
+					newMon.Sub(sender.Monetary, keptLeft)
+					senders = append(senders, Sender{
+						Name:     sender.Name,
+						Monetary: &newMon,
+					})
+					break
+				}
+				keptLeft.Sub(keptLeft, sender.Monetary)
 			}
 			continue
 		}
